@@ -436,7 +436,7 @@ static inline Domain F32_ALL() { return range("F32_ALL", 0, 1ull << 32, true); }
 static inline std::vector<uint64_t> f32_spec_values() {
   const float vals[] = {0.f, 1.4e-45f, 1.17549421e-38f /*max subnormal*/, 1.17549435e-38f, 0.49999997f, 0.5f, 0.50000006f, 0.99999994f, 1.f, 1.00000012f,
     1.5f, 2.f, 2.5f, 3.f, 3.5f, 0.1f, 0.333333343f, 3.14159274f, 2.71828175f, 7.f, 100.f, 255.f, 256.f, 65504.f, 65536.f, 8388607.5f, 8388608.f, 8388609.f, 16777216.f,
-    2147483520.f, 2147483648.f, 4294967296.f, 9.2233720e18f, 1e-20f, 1e20f, 3.40282347e38f};
+    2147483520.f, 2147483648.f, 3000000000.f, 4294967040.f, 4294967296.f, 9.2233720e18f, 1e-20f, 1e20f, 3.40282347e38f};
   std::vector<uint64_t> v;
   for (float f : vals) { v.push_back(b32(f)); v.push_back(b32(-f)); }
   v.push_back(0x7f800000u); v.push_back(0xff800000u); v.push_back(0x7fc00000u); v.push_back(0xffc00000u); v.push_back(0x7f800001u);
@@ -445,7 +445,7 @@ static inline std::vector<uint64_t> f32_spec_values() {
 static inline Domain F32_SPEC() { return list("F32_SPEC", f32_spec_values()); }
 static inline std::vector<uint64_t> f64_spec_values() {
   const double vals[] = {0., 4.9406564584124654e-324, 2.2250738585072009e-308, 2.2250738585072014e-308, 0.49999999999999994, 0.5, 0.50000000000000011, 0.99999999999999989, 1., 1.0000000000000002,
-    1.5, 2., 2.5, 3., 3.5, 0.1, 1. / 3, 3.141592653589793, 2.718281828459045, 7., 100., 255., 256., 65504., 65536., 8388608., 16777216., 2147483647., 2147483648., 4294967296.,
+    1.5, 2., 2.5, 3., 3.5, 0.1, 1. / 3, 3.141592653589793, 2.718281828459045, 7., 100., 255., 256., 65504., 65536., 8388608., 16777216., 2147483647., 2147483647.5, 2147483648., 3000000000., 4294967295.4999995, 4294967296.,
     4503599627370495.5, 4503599627370496., 4503599627370497., 9007199254740992., 9.2233720368547758e18, 1e-200, 1e200, 1.7976931348623157e308};
   std::vector<uint64_t> v;
   for (double f : vals) { v.push_back(b64(f)); v.push_back(b64(-f)); }
